@@ -37,8 +37,8 @@ T = {
          "Races inside user functions are out of scope; the Go memory model's channel edges are the trusted base."),
  "C13": ("Every template variant parses and type-checks under adversarial import aliases; every template field path exists; no output write before re-parse and format succeeded; compile errors abort generation; constant accessors with panicking preconditions are guarded; errors reach the exit status.",
          "User identifiers shadowing package names, directives nested in task literals and printing of arbitrary user types are out of static reach (DESIGN §5 C13)."),
- "C14": ("All validators run on every path before scheduling/generation and any diagnostic aborts; duplicate-provider results are tested; diagnostics are positioned; Slice/Map assignability is tested in the direction of the generated call.",
-         "Soundness/completeness of the cycle search and of the BFS over all graphs is NOT decided (a seeded change to the cycle memo, C14_d, is not detected: see DESIGN §10)."),
+ "C14": ("All validators run on every path before scheduling/generation and any diagnostic aborts; duplicate-provider results are tested; diagnostics are positioned; Slice/Map assignability is tested in the direction of the generated call; the cycle search keeps the memo discipline of a sound memoised DFS (post-order memo, or path test first under the memo's key); the generator's synthetic sentinel types (Invoke / Predicate families) are structurally disjoint and numbered apart, so no well-formed flow is rejected through a collision of the generator's own keys.",
+         "Completeness of the BFS (every missing provider / unused input reported) and acceptance of every well-formed flow beyond these premises is NOT decided: a property of graph algorithms over all graphs."),
  "C15": ("Every ast.Expr-typed template value is printed through the hoisting printer (raw printer only in the prologue); the printer records before naming; prologue sorted by position and written before the staged body.",
          "Evaluation order among the hoisted definitions relies on Go's statement order; user expressions that are the literal nil or synthetic (auto-instrument names) are printed in place by design."),
  "C16": ("Closed list of file-writing calls whose path flows from the output-path parameter; constraint inversion is a structural recursion visiting every constraint.Expr child and altering only cff tags; source bytes between directives are copied by a chained offset walk.",
